@@ -20,12 +20,138 @@ COMPONENTS = {"real": ["pyjelly serializers of both integrations", "protobuf upb
               "stub": ["reader: simkit.wire + simkit.refdec (independent codec and spec state machine)"]}
 ASSUMPTIONS = ["the reference decoder's reading of rdf.proto (DESIGN.md section 3)",
                "inputs and configurations are sampled"]
-PROBES = ["shared_stream_writes", "evictions", "ns_streams", "rdflib_streams", "generic_streams", "physical_GRAPHS",
+PROBES = ["direct_stream_runs", "direct_preset_mismatch", "direct_ns_refused", "shared_stream_writes", "evictions", "ns_streams", "rdflib_streams", "generic_streams", "physical_GRAPHS",
           "zero_name_ids", "zero_prefix_ids", "zero_entry_ids"]
 SHRINK_LISTS = ["ops"]
 
 
+def gen_direct(rng, run, tier):
+    """The Stream classes driven directly: encoder and options handed to the constructor separately (their
+    lookup presets may differ), statements pushed one by one, namespace_declaration() called between them
+    whether or not the options enable namespace declarations."""
+    integration = rng.choice(["generic", "rdflib"])
+    physical = rng.choice(["TRIPLES", "QUADS"])
+    stmts, flags, sizes, _ = c01.gen_workload(rng, physical, rdflib_safe=integration == "rdflib", max_n=16)
+    pools = W.Pools(rng, 3, 3, 1, rdflib_safe=integration == "rdflib")
+    nss = W.gen_namespaces(rng, pools, rng.randint(0, 3), rdflib_safe=integration == "rdflib")
+    mp, mn, md = c01.fit_tables(rng, stmts, [], sizes, physical)
+    need = W.max_needs(stmts, nss, prefix_enabled=mp > 0, graphs_type=False)
+    if mp:
+        mp = max(mp, need[0])
+    mn = max(mn, need[1])
+    if md == 0 and W.has_datatypes(stmts):
+        md = max(1, need[2])
+    cfg = nodes.default_cfg(integration=integration, physical=physical, logical=1 if physical == "TRIPLES" else 2,
+                            delimited=True, frame_size=rng.choice([1, 3, 250]), max_names=mn, max_prefixes=mp,
+                            max_datatypes=md, generalized=flags["generalized"], rdf_star=flags["rdf_star"],
+                            entry="direct")
+    cfg["ns"] = rng.random() < 0.5
+    # the preset written into the options object: the encoder's own, the library default, or another one
+    cfg["options_preset"] = rng.choice(["same", "same", "default", "smaller", "larger"])
+    ops = [["stmt", *T.to_json(st)] for st in stmts]
+    for p_, i_ in nss:
+        ops.insert(rng.randint(0, len(ops)), ["ns", p_, i_])
+    return {"kind": "direct", "cfg": cfg, "ops": ops}
+
+
+def write_direct(cfg, ops, sim):
+    import io
+    from pyjelly.options import LookupPreset
+    from pyjelly.serialize.ioutils import write_delimited
+    from pyjelly.serialize.streams import QuadStream, TripleStream
+    import dataclasses
+    enc_preset = LookupPreset(max_names=cfg["max_names"], max_prefixes=cfg["max_prefixes"],
+                              max_datatypes=cfg["max_datatypes"])
+    how = cfg["options_preset"]
+    if how == "same":
+        opt_preset = enc_preset
+    elif how == "default":
+        opt_preset = LookupPreset()
+    elif how == "smaller":
+        opt_preset = LookupPreset(max_names=8, max_prefixes=min(cfg["max_prefixes"], 1), max_datatypes=0)
+    else:
+        opt_preset = LookupPreset(max_names=min(4096, cfg["max_names"] * 2), max_prefixes=min(4096, cfg["max_prefixes"] * 2 + 1),
+                                  max_datatypes=min(4096, cfg["max_datatypes"] + 3))
+    options = dataclasses.replace(nodes.make_options(cfg), lookup_preset=opt_preset)
+    if cfg["integration"] == "generic":
+        from pyjelly.integrations.generic.serialize import GenericSinkTermEncoder as Enc
+    else:
+        from pyjelly.integrations.rdflib.serialize import RDFLibTermEncoder as Enc
+    cls = TripleStream if cfg["physical"] == "TRIPLES" else QuadStream
+    stream = cls(encoder=Enc(lookup_preset=enc_preset), options=options)
+    push = stream.triple if cfg["physical"] == "TRIPLES" else stream.quad
+    conv = nodes.conv_stmt(cfg)
+    out = io.BytesIO()
+    refused = 0
+    stream.enroll()
+    for op in ops:
+        if op[0] == "ns":
+            try:
+                stream.namespace_declaration(op[1], op[2])
+            except Exception as e:  # noqa: BLE001
+                if cfg["ns"]:
+                    raise
+                # refusing a namespace row for a version-1 stream is one of the two valid answers
+                refused += 1
+                sim.event("ns_refused", type(e).__name__)
+            continue
+        fr = push(conv(T.from_json(op[1:])))
+        if fr:
+            write_delimited(fr, out)
+    fr = stream.flow.to_stream_frame()
+    if fr:
+        write_delimited(fr, out)
+    return out.getvalue(), refused
+
+
+def execute_direct(plan, sim):
+    cfg = plan["cfg"]
+    sim.count("direct_stream_runs")
+    sim.count(cfg["integration"] + "_streams")
+    if cfg["options_preset"] != "same":
+        sim.count("direct_preset_mismatch")
+    stmts, nss = nodes.split_ops(plan["ops"])
+    try:
+        data, refused = write_direct(cfg, plan["ops"], sim)
+    except Exception as e:  # noqa: BLE001
+        return [{"clause": "C03.serialize_raised", "sig": {"exc": type(e).__name__, "entry": "direct"},
+                 "msg": f"Stream driven directly raised {type(e).__name__}: {e}"}], None
+    if refused:
+        sim.count("direct_ns_refused", refused)
+    r = refdec.decode_stream(data, True, strict=True)
+    key = (repr(sorted(cfg.items())), repr(plan["ops"])) if len(stmts) >= 2 else None
+    if not r.ok:
+        e = r.error
+        return [{"clause": "C03.invalid_stream", "sig": {"cls": e["cls"], "entry": "direct"},
+                 "msg": f"Stream(encoder=<{cfg['max_names']}/{cfg['max_prefixes']}/{cfg['max_datatypes']}>, options preset "
+                        f"{cfg['options_preset']}), namespace_declarations={cfg['ns']}: reference decoder rejects the stream "
+                        f"at frame {e['frame']} row {e['row']}: {e['cls']}: {e['msg']}"}], key
+    if r.audit["namespace_rows"]:
+        sim.count("ns_streams")
+    v = []
+    got = [norm_item(i) for i in r.statements()]
+    exp = [T.norm_stmt(st) for st in stmts] if cfg["integration"] == "generic" else \
+        [norm_item(c02_holds(st)) for st in stmts]
+    if got != exp:
+        d = c01.first_diff(exp, got)
+        v.append({"clause": "C03.denotes_other_data", "sig": {"integration": cfg["integration"], "entry": "direct"},
+                  "msg": f"statement {d[0]}: pushed {d[1]!r}, the stream says {d[2]!r}"})
+    want_ns = len(nss) - refused
+    if r.audit["namespace_rows"] != want_ns:
+        v.append({"clause": "C03.namespace_rows", "sig": {"entry": "direct"},
+                  "msg": f"{len(nss)} declarations, {refused} refused, {r.audit['namespace_rows']} rows in the stream"})
+    return v, key
+
+
+def c02_holds(st):
+    """What the statement is once held as rdflib terms (a statement pushed to a stream is not de-duplicated)."""
+    from checks import c15
+    return c15.neutral_as_rdflib_holds(st)
+
+
 def generate(rng, run, tier):
+    if rng.random() < 0.08:
+        return gen_direct(rng, run, tier)
     if rng.random() < 0.12:
         # several containers written through one shared stream (grouped writes, incl. a shared GraphStream)
         from checks import c07
@@ -62,6 +188,8 @@ def expected_items(cfg, stmts):
 def execute(plan, sim):
     import warnings
     warnings.simplefilter("ignore")
+    if plan.get("kind") == "direct":
+        return execute_direct(plan, sim)
     cfg = plan["cfg"]
     stmts, nss = nodes.split_ops(plan["ops"])
     sim.count(cfg["integration"] + "_streams")
